@@ -355,28 +355,32 @@ def setup():
 
 # ---- scenarios -----------------------------------------------------------------------------------
 class Scen:
-    def __init__(self, prim, init, sec, nsec, quantum, spur, eintr, progs, cfail=0):
+    def __init__(self, prim, init, sec, nsec, quantum, spur, eintr, progs, cfail=0, enosys=0):
         self.cfail = cfail                                      # how often pthread_create may fail
+        self.enosys = enosys                                    # how often sem_timedwait may report ENOSYS (implementation-only runs)
         self.prim, self.init, self.sec, self.nsec, self.quantum = prim, init, sec, nsec, quantum
         self.spur, self.eintr, self.progs = spur, eintr, progs      # progs = [(ret, [op,...]), ...]
 
     def line(self):
         return (f"scen {self.prim} {self.init} {self.sec} {self.nsec} {self.quantum} {self.spur} {self.eintr} "
-                + (f"F:{self.cfail} " if self.cfail else "") + " ".join(f"T:{r}:{','.join(ops)}" for r, ops in self.progs))
+                + (f"F:{self.cfail} " if self.cfail else "") + (f"N:{self.enosys} " if self.enosys else "") + " ".join(f"T:{r}:{','.join(ops)}" for r, ops in self.progs))
 
     @staticmethod
     def parse(line):
         t = line.split()
         if len(t) < 9 or t[0] != "scen":
             return None
-        progs, cfail = [], 0
+        progs, cfail, enosys = [], 0, 0
         for tok in t[8:]:
             if tok.startswith("F:"):
                 cfail = int(tok[2:])
                 continue
+            if tok.startswith("N:"):
+                enosys = int(tok[2:])
+                continue
             _, r, ops = tok.split(":")
             progs.append((int(r), [o for o in ops.split(",") if o]))
-        return Scen(t[1], int(t[2]), int(t[3]), int(t[4]), int(t[5]), int(t[6]), int(t[7]), progs, cfail)
+        return Scen(t[1], int(t[2]), int(t[3]), int(t[4]), int(t[5]), int(t[6]), int(t[7]), progs, cfail, enosys)
 
 
 def gen_body(rng, prim, budget):
@@ -712,7 +716,10 @@ def contracts(sc, tr):
                 continue
             if c.op == "try" and (u, 0) not in cset:
                 errs.append(f"tryLock of thread {u} is not schedulable at step {i}: it blocks")
-            if sc.prim == "sem" and c.op in ("wait", "twait", "trywait") and count > 0 and (u, 0) not in cset:
+            # (the ENOSYS fallback of wait(timeout) polls: between two polls the waiter sleeps <= 10 ms although the count may be
+            #  positive - it is not blocked as long as time can pass)
+            if sc.prim == "sem" and c.op in ("wait", "twait", "trywait") and count > 0 and (u, 0) not in cset \
+                    and not (sc.enosys and c.op == "twait" and (99, 0) in cset):
                 errs.append(f"semaphore: thread {u} stays blocked in {c.op} at step {i} while the count is {count}")
             if sc.prim == "mtx" and c.op == "lock" and (depth == 0 or holder == u) and (u, 0) not in cset:
                 errs.append(f"mutex: lock of thread {u} blocks at step {i} although the mutex is free / owned by the caller")
@@ -937,6 +944,64 @@ def monitor_destroy_whatif(ctx, harness):
             "; ".join(f"{k}: {v['touch the destroyed condition variable']}/{v['schedules']} schedules" for k, v in res.items()))
 
 
+ENOSYS_SCENARIOS = [
+    # Semaphore::wait(timeout) when sem_timedwait reports ENOSYS: `for(i = 0; i < timeout; i += 10) { if(sem_trywait) return true; usleep(10 ms); }`
+    "scen sem 0 5 995000000 5000000 0 1 N:2 T:0:start-1,start-2,signal,join-1,join-2 T:1:twait-25 T:2:twait-0,twait-10",
+    "scen sem 1 5 0 10000000 0 0 N:3 T:0:start-1,start-2,join-1,join-2 T:1:twait-20,twait-15 T:2:twait-1,signal",
+    "scen sem 0 1700000000 999999999 3000000 0 2 N:1 T:0:start-1,signal,join-1,trywait T:1:twait-1001",
+]
+
+
+def enosys_pass(ctx, harness):
+    """TIE ONLY (the fallback is not in the Lean model): the ENOSYS branch of Semaphore::wait(timeout) - the polling loop over
+    sem_trywait + usleep(10 ms) - is executed on the implementation over the simulated POSIX layer (sem_timedwait alternative 3,
+    usleep = sleep on the virtual clock), all schedules with <= 1 (quick) / <= 3 (thorough) deviations from the default policy + random schedules, and
+    the contracts of the property (conservation, false only after call + time-out in virtual time, nobody stuck) are
+    evaluated on every trace by the reference."""
+    res = {"runs": 0, "ENOSYS alternatives taken": 0, "twait=1": 0, "twait=0": 0, "complaints": 0}
+    quick = ctx.tier == "quick"
+    for line in ENOSYS_SCENARIOS:
+        sc = Scen.parse(line)
+        pending, wave, done = [()], 0, 0
+        cap = 400 if quick else 20000
+        seeds = [ctx.rng.randrange(1, 2 ** 63) for _ in range(100 if quick else 3000)]
+        while (pending or seeds) and done < cap:
+            runs = [f"run {sched_str(p)}" for p in pending[:cap - done]] + [f"rrun {x} -" for x in seeds]
+            npend = len(runs) - len(seeds)
+            seeds = []
+            out, rc, err = C.run_lines(harness, ["reset", line] + runs, timeout=300)
+            new = []
+            for k, (cmd, o) in enumerate(zip(runs, out[2:])):
+                tr = Trace(o)
+                done += 1
+                res["runs"] += 1
+                msg = contracts(sc, tr)
+                if tr.ok:
+                    res["ENOSYS alternatives taken"] += sum(1 for t, a, _, _ in tr.steps if a == 3)
+                    if k < npend and wave < (1 if quick else 3):
+                        p = pending[k]
+                        ch = tr.choices()
+                        for pos in range(len(p), min(len(tr.steps), 400)):
+                            t, a, cands, _ = tr.steps[pos]
+                            new += [tuple(ch[:pos]) + (c,) for c in cands if c != (t, a)]
+                elif msg is None:
+                    msg = "no trace: " + o[:120]
+                if msg:
+                    res["complaints"] += 1
+                    if res["complaints"] <= 3:
+                        ctx.violation(f"ENOSYS fallback of Semaphore::wait(timeout) (implementation-only run): {msg}",
+                                      "# implementation-only run (the ENOSYS fallback is not in the Lean model)\n# " + msg + "\nreset\n" + line + "\n" + cmd + "\n# -> " + o[:2000] + "\n",
+                                      signature="enosys-fallback")
+            wave += 1
+            pending = new
+    res["twait=1"] = STATS.get("sem.twait=1", 0)
+    res["twait=0"] = STATS.get("sem.twait=0", 0)
+    ctx.cov["enosys_fallback_impl_only"] = res
+    ctx.log(f"ENOSYS fallback of Semaphore::wait(timeout), implementation only: {res['runs']} runs, {res['ENOSYS alternatives taken']} ENOSYS returns, {res['complaints']} complaint(s)")
+    if res["ENOSYS alternatives taken"] == 0:
+        ctx.broken.append("the ENOSYS fallback of Semaphore::wait(timeout) was never reached by the implementation-only pass")
+
+
 def stress(ctx):
     """uncontrolled run on real pthreads — a TEST guarding the shim, not part of the proof-level claim"""
     srcs = ["sync_stress.cpp"] + [C.REPO / "src" / f"{n}.cpp" for n in LIB_SOURCES]
@@ -1076,6 +1141,8 @@ def check(ctx):
             C.report_diffs(ctx, ex.diffs, harness, driver, reference, C.default_eq, "sync-schedules")
         # 4. information: the Monitor::set() shape (see docs/sync.md)
         monitor_destroy_whatif(ctx, harness)
+        # 4b. tie only: the ENOSYS fallback of Semaphore::wait(timeout)
+        enosys_pass(ctx, harness)
         # 5. the test on real pthreads
         stress(ctx)
     finally:
